@@ -156,6 +156,7 @@ class Builtin:
 
 
 IGNORED_ATTRS = ("_hash", "_sorted")
+NOT_IMPLEMENTED = object()
 
 
 def key(v) -> Any:
@@ -260,6 +261,7 @@ class Evaluator:
         self.steps = 0
         self.const_cache: Dict[Tuple[str, str], Any] = {}
         self.state: Dict[str, Any] = {}       # scratch space of the summaries (reset by the driver)
+        self.eq_depth = 0
         self._is_gen: Dict[str, bool] = {}
         self._globals: Dict[Tuple[str, str], Any] = {}
         self.functions_evaluated: Dict[str, int] = {}
@@ -332,9 +334,48 @@ class Evaluator:
             return {}
         if c.name == "bool":
             return self.truth(args[0], where) if args else False
+        if c.name == "str":
+            return self.to_str(args[0], where) if args else ""
         if c.name == "type" and len(args) == 1:
             return self.type_of(args[0])
         raise AnalysisError(f"absint: call of {c.name}() at {where}")
+
+    def to_str(self, v, where="str()") -> str:
+        if isinstance(v, str):
+            return v
+        if isinstance(v, Node):
+            for nm in ("__str__", "__repr__"):
+                m = self.prog.lookup_method(v.info, nm)
+                if m:
+                    return self.to_str(self.call_func(FuncVal(m[0], v), [], {}, where), where)
+            return f"<{v.info.name} object>"
+        return self.to_repr(v, where)
+
+    def to_repr(self, v, where="repr()") -> str:
+        if isinstance(v, str):
+            return repr(v)
+        if isinstance(v, Cls):
+            return f"<class '{v.name}'>"
+        if isinstance(v, Node):
+            m = self.prog.lookup_method(v.info, "__repr__")
+            if m:
+                return self.to_str(self.call_func(FuncVal(m[0], v), [], {}, where), where)
+            return f"<{v.info.name} object>"
+        if isinstance(v, ModelDict):
+            return "{" + v.tag + "}"
+        if isinstance(v, OSet):
+            return "{" + ", ".join(self.to_repr(x, where) for x in v) + "}"
+        if isinstance(v, list):
+            return "[" + ", ".join(self.to_repr(x, where) for x in v) + "]"
+        if isinstance(v, tuple):
+            return "(" + ", ".join(self.to_repr(x, where) for x in v) + ("," if len(v) == 1 else "") + ")"
+        if isinstance(v, dict):
+            return "{" + ", ".join(f"{self.to_repr(k, where)}: {self.to_repr(x, where)}" for k, x in v.items()) + "}"
+        if isinstance(v, frozenset):
+            return "frozenset({" + ", ".join(sorted(map(repr, v))) + "})"
+        if v is None or isinstance(v, (bool, int, float)):
+            return repr(v)
+        raise AnalysisError(f"absint: text of {type(v).__name__} at {where}")
 
     def type_of(self, v) -> Cls:
         if isinstance(v, Node):
@@ -393,6 +434,40 @@ class Evaluator:
         raise AnalysisError(f"absint: iteration over {show(v)} at {where}")
 
     def equal(self, a, b) -> bool:
+        """`a == b` as Python decides it: the `__eq__` of a repository class is evaluated from its source; classes without one
+        compare by identity; containers element by element."""
+        if a is b:
+            return True
+        for x, y in ((a, b), (b, a)):
+            if isinstance(x, Node):
+                m = self.prog.lookup_method(x.info, "__eq__")
+                if m:
+                    self.eq_depth += 1
+                    if self.eq_depth > 60:
+                        self.eq_depth = 0
+                        raise PyRaise("RecursionError", f"{m[0].relpath}:{m[0].node.lineno} (__eq__ of {x.info.name} does not end)")
+                    try:
+                        r = self.call_func(FuncVal(m[0], x), [y], {}, "==")
+                    finally:
+                        self.eq_depth = max(0, self.eq_depth - 1)
+                    if r is NOT_IMPLEMENTED:
+                        continue
+                    return self.truth(r, "==")
+                if isinstance(y, Node) and self.prog.lookup_method(y.info, "__eq__"):
+                    continue
+                return False            # no __eq__: identity (and a is not b)
+        if isinstance(a, OSet) or isinstance(b, OSet):
+            return isinstance(a, OSet) and isinstance(b, OSet) and len(a) == len(b) and all(self.contains(b, x, "==") for x in a)
+        if isinstance(a, (list, tuple)) and isinstance(b, (list, tuple)):
+            return type(a) is type(b) and len(a) == len(b) and all(self.equal(x, y) for x, y in zip(a, b))
+        if isinstance(a, dict) and isinstance(b, dict):
+            if len(a) != len(b):
+                return False
+            for k, v in a.items():
+                hit = [v2 for k2, v2 in b.items() if key(k) == key(k2)]
+                if not hit or not self.equal(v, hit[0]):
+                    return False
+            return True
         return key(a) == key(b)
 
     def contains(self, container, item, where: str) -> bool:
@@ -404,8 +479,7 @@ class Evaluator:
         if isinstance(container, dict):
             return any(self.equal(x, item) for x in container)
         if isinstance(container, (list, tuple, frozenset)):
-            k = key(item)
-            return any(key(x) == k for x in container)
+            return any(x is item or self.equal(x, item) for x in container)
         if isinstance(container, Iter):
             return any(self.equal(x, item) for x in self.iterate(container, where))
         raise AnalysisError(f"absint: `in` on {show(container)} at {where}")
@@ -453,6 +527,8 @@ class Evaluator:
             return Cls(name)
         if name in ("True", "False", "None"):
             return {"True": True, "False": False, "None": None}[name]
+        if name == "NotImplemented":
+            return NOT_IMPLEMENTED
         raise AnalysisError(f"absint: name `{name}` at {where} is not something the evaluator knows "
                             f"({'external ' + r.dotted if isinstance(r, External) else 'unresolved'})")
 
@@ -669,9 +745,23 @@ class Evaluator:
             raise AnalysisError(f"absint: super() outside a method at {where}")
         if name == "id":
             return id(args[0])
-        if name == "sorted" and not kwargs:
+        if name == "repr":
+            return self.to_repr(args[0], where)
+        if name == "sorted":
             xs = self.iterate(args[0], where)
-            return sorted(xs, key=lambda x: repr(key(x)))
+            kf = kwargs.get("key")
+            rev = bool(kwargs.get("reverse", False))
+            if set(kwargs) - {"key", "reverse"}:
+                raise AnalysisError(f"absint: sorted({sorted(kwargs)}) at {where}")
+            if kf is None:
+                if all(isinstance(x, (str, int)) and not isinstance(x, bool) for x in xs) and len({type(x) for x in xs}) <= 1:
+                    return sorted(xs, reverse=rev)
+                return sorted(xs, key=lambda x: repr(key(x)), reverse=rev)
+            ks = [self.call(kf, [x], {}, where) for x in xs]
+            if not all(isinstance(k_, (str, int, tuple)) for k_ in ks):
+                raise AnalysisError(f"absint: sort keys that are neither text nor numbers at {where}")
+            order = sorted(range(len(xs)), key=lambda i: ks[i], reverse=rev)
+            return [xs[i] for i in order]
         if name == "print":
             return None
         raise AnalysisError(f"absint: builtin {name}() at {where}")
@@ -785,6 +875,9 @@ class Evaluator:
                 return None
             raise AnalysisError(f"absint: dict.{name}() at {where}")
         if isinstance(obj, ModelDict):
+            if name == "keys":
+                # an opaque stand-in for the key set of this field set ("M1" and "M1/b" have the same field names, other types)
+                return ["<fields of " + "+".join(sorted({t.split("/")[0] for t in obj.tag.split("+")})) + ">"]
             raise AnalysisError(f"absint: the fields of a field set are looked at ({name}()) at {where}: decided per level only")
         if isinstance(obj, str):
             if name == "join":
@@ -1150,7 +1243,14 @@ class Evaluator:
                 return obj          # typing subscript: Optional[...] as an annotation value
             raise AnalysisError(f"absint: subscript of {show(obj)} at {where}")
         if isinstance(e, ast.JoinedStr):
-            return "<text>"
+            parts = []
+            for v in e.values:
+                if isinstance(v, ast.Constant):
+                    parts.append(str(v.value))
+                else:
+                    val = self.eval(v.value, frame)
+                    parts.append(self.to_repr(val, where) if v.conversion == 114 else self.to_str(val, where))
+            return "".join(parts)
         if isinstance(e, ast.Lambda):
             fi = next((f for f in frame.module.all_funcs if f.node is e), None)
             if fi is None:
